@@ -22,6 +22,10 @@ ASSUMPTIONS = [
     "run_test/run_extract: py7zr.SevenZipFile / is_7zfile / open / getpass are stubs; the archive stub fails at a symbolic "
     "point with a symbolic member of the library's exception set, or reports damage through testzip(); print_archiveinfo "
     "and all printing are no-ops (text is not the subject)",
+    "4.test_real_archive / 4.list_real_archive: the real run_test/_run_list with the REAL print_archiveinfo on the read-side "
+    "archive model of C06 (decoder contract stub); open / os.stat / is_7zfile and the date columns' datetime are stand-ins; "
+    "f-string and %-format operands are evaluated, the resulting text is not inspected",
+    "3.library_verdict: C04's obligations re-run for the calls the command makes",
 ]
 
 
